@@ -151,6 +151,10 @@ pub fn initial_states_d(t: Tier, with_big: bool) -> Vec<(Init, usize)> {
         m.q[0].qtype = T_OPT;
         msgs.push(m);
     }
+    // the LAST record of the packet carries a name in its data that is compressed against an inner label of
+    // its own owner (owner zone occurs nowhere earlier)
+    msgs.push(r(vec![a_rec(&ba, 60, [1, 2, 3, 4])], vec![name_rec(&nm("x.y.other"), T_NS, 3, &nm("ns.y.other"))], vec![]));
+    msgs.push(r(vec![mx_rec(&nm("m.x.y.other"), 4, 10, &nm("mail.y.other"))], vec![], vec![]));
     let d2_to = msgs.len();
     let mut q = base_msg(&ba, T_A, false);
     q.ar.push(opt[0].clone());
